@@ -23,12 +23,14 @@ EXPLANATION = (
     "_iter_branch opens one guard level per interrupt, not per statement."
 )
 ASSUMPTIONS = [
-    "the parser limits bracket nesting (about 200 levels), so recursion over target/index patterns is bounded",
+    "the parser limits bracket nesting (about 200 levels) and the nesting of format specs (2 levels), so recursion over target/index patterns and over format_spec is bounded",
     "thresholds themselves (recursion limit 1000, frames per level) are run-time quantities, not decided",
 ]
 
 # fields through which a recursive descent is bounded by the parser's bracket-nesting limit
-BRACKET_FIELDS = {"elts"}
+# (`format_spec`: a format spec is itself an f-string; CPython's f-string grammar stops at two levels -
+# "f-string: expressions nested too deeply" - so the chain JoinedStr -> field -> spec -> field is short)
+BRACKET_FIELDS = {"elts", "format_spec"}
 RECURSIVE_STDLIB = {
     "ast.unparse": "ast.NodeVisitor based, several Python frames per tree level",
     "copy.deepcopy": "recursive, about four Python frames per level of the copied structure",
@@ -231,6 +233,33 @@ def rule_r1(ctx):
                     extra = ast_fields - allowed
                     if extra:
                         bad = (fq, call, f"the recursion descends through {sorted(extra)}: chains of such nodes (operators, calls, attributes, blocks) are not limited by the parser, so the depth of the recursion grows with the program")
+        if bad is not None:
+            # one bounded step per round is enough: a cycle can only be walked as often as its most
+            # restricted edge allows.  Remove the edges that descend through bounded fields only; if no
+            # cycle is left among the functions, every cycle contains such an edge
+            bounded, not_bounded = set(), set()
+            for fq in comp:
+                fi = cg.funcs[fq]
+                for call, tgt in cg.call_sites[fq]:
+                    if getattr(tgt, "fq", None) in comp:
+                        flds = (_descent_fields(fi, call) - {"nsp", "node", "self"}) & all_ast_fields
+                        has_st = any(isinstance(n, ast.Call) and isinstance(n.func, ast.Name) and n.func.id == "isinstance" and any(isinstance(x, ast.Name) and x.id == "Starred" for x in ast.walk(n)) for n in ast.walk(fi.node))
+                        if flds and flds <= (set(BRACKET_FIELDS) | ({"value"} if has_st else set())):
+                            bounded.add((fq, tgt.fq))
+                        else:
+                            not_bounded.add((fq, tgt.fq))
+            bounded -= not_bounded  # every call site of the pair has to be a bounded step
+            unb_sites = {(fq, getattr(t, "fq", None)) for fq in comp for _c, t in cg.call_sites[fq] if getattr(t, "fq", None) in comp} - bounded
+            saved = {a: set(cg.edges[a]) for a in comp}
+            try:
+                for a in comp:
+                    cg.edges[a] = {b for b in cg.edges[a] if b not in comp or (a, b) in unb_sites}
+                left = [c2 for c2 in cg.sccs(set(comp)) if set(c2) <= set(comp)]
+            finally:
+                for a, e in saved.items():
+                    cg.edges[a] = e
+            if bounded and not left:
+                bad = None
         if bad is None and not union and first:
             bad = (first[0], first[1], "no call of the cycle descends into a sub-node of its argument")
         if bad:
